@@ -8,7 +8,7 @@ def jobs(tier):
              stubs=C15.POOL_STUBS + ('opensmt::FastRational::getMpq',), expected_wrap=C15.WRAP, min_obligations=5,
              proves='the constant of an integer difference constraint is converted exactly, or reported as not fitting')]
     J += [j for j in C27.jobs_stp() if re.search(r'SafeInt_(plus|minuseq|minus|neg)|IDL_', j.name)]
-    return J + jobs_lia()
+    return J + jobs_lia() + [lia_unb_job()]
 LIA_STUBS = ('opensmt::LASolver::isModelInteger', 'opensmt::LASolver::shouldTryCutFromProof', 'opensmt::LASolver::cutFromProof', 'opensmt::LASolver::splitOnRandom', 'opensmt::LASolver::getVarPTRef',
              'opensmt::LASolver::setStatus', 'opensmt::Simplex::hasLBound', 'opensmt::Simplex::hasUBound', 'opensmt::Simplex::Ub', 'opensmt::Simplex::Lb', 'opensmt::Simplex::getValuation',
              'opensmt::ArithLogic::mkLeq', 'opensmt::ArithLogic::mkGeq', 'opensmt::ArithLogic::mkIntConst', 'opensmt::Logic::mkOr', 'vec_LVRef__capacity__int', 'vec_PTRef__push__PTRef_R')
@@ -47,6 +47,27 @@ def jobs_lia():
                 bounded_note='at most 3 integer variables (every subset integral / non-integral); FastRational code of the split at word width 4',
                 proves='SAT from the complete LIA check implies an integral value for every integer variable')]
 
+H_LIA_UNB = '''void harness(void) {
+  h_n = nondet_int(); __CPROVER_assume(h_n >= 0 && h_n <= MAXV);
+  g_k = nondet_int(); __CPROVER_assume(g_k >= 0 && g_k < h_n);
+  __CPROVER_havoc_object(h_vars);
+  h_cellvar = nondet_u32(); __CPROVER_assume(h_cellvar < (t_u32)OSMT_LIM_INT32_MAX); h_cell_integral = nondet_bool(); if (h_n > 0) h_vars[g_k].x = h_cellvar;
+  g_opaque_LASolver_int_vars.data = h_vars; g_opaque_LASolver_int_vars.sz = h_n; g_opaque_LASolver_int_vars.cap = MAXV;
+  h_cut = nondet_bool() ? E_TRes_UNKNOWN : E_TRes_UNSAT; g_any_nonint = 0; g_cell_asked = 0; g_status = -1; g_splits = 0; __osmt_thrown = 0;
+  t_int r = LASolver__checkIntegersAndSplit((struct LASolver *)0);
+  if (h_n > 0) __CPROVER_assert(g_cell_asked, "an arbitrary integer variable is examined, for any number of integer variables");
+  __CPROVER_assert((g_status == E_LASolver___anon_SAT) == !g_any_nonint, "the complete LIA check ends in status SAT exactly when no examined variable has a non-integral value");
+  if (h_n > 0 && !h_cell_integral) __CPROVER_assert(g_status != E_LASolver___anon_SAT, "a non-integral value of an arbitrary integer variable rules out status SAT");
+  if (g_any_nonint) __CPROVER_assert((r == h_cut && r != E_TRes_UNKNOWN && !g_splits) || (r == E_TRes_SAT && g_status == E_LASolver___anon_NEWSPLIT && g_splits), "a non-integral model leads to a cut verdict or to a recorded branch, never to a plain SAT");
+  OSMT_REACH("return");
+}
+'''
+def lia_unb_job():
+    return Job('checkIntegersAndSplit.unbounded.R', 'src/tsolvers/lasolver/LASolver.cc', 'opensmt::LASolver::checkIntegersAndSplit', tier='R', header='contracts/C02/lia_unb.h', harness=H_LIA_UNB, enforce=False, loop_contracts=True,
+               pre_includes=('stubs/gmp_types.h', 'stubs/std_types.h'),
+               stubs=LIA_STUBS + ('opensmt::FastRational::floor', 'FastRational__op_plus', 'FastRational__ctor__word', 'vec_LVRef__push__LVRef_R'), opaque=('opensmt::LASolver', 'opensmt::TSolver', 'opensmt::Simplex', 'opensmt::ArithLogic', 'opensmt::Logic'),
+               min_obligations=5, timeout=900, object_bits=12, bounded_note='loop contract over the integer variables; the variable vector is a real array with a capacity of 1024 entries (any contents, one symbolic cell)',
+               proves='for any number of integer variables up to the capacity of 1024: status SAT exactly when every integer variable has an integral value')
 def info(tier, results):
     return {'level': 'proof', 'trusted_base': ['clang 14 AST', 'osmt2c lowering', 'CBMC 6.11 dfcc'],
             'assumptions': ['FastRational::getMpq / mpq_class::get_num / mpz_class::fits_slong_p / get_si behave as the stubs of contracts/C02/getvalue.h (exact GMP semantics over ghost value identities)'], 'explanation': ''}
